@@ -781,3 +781,109 @@ def mutable_statics(tree: Tree, prefixes: Sequence[str]) -> List[Tuple[str, int,
             fd = enclosing_function(tree, rel, i)
             out.append((rel, tk.line, fd.qual if fd else "<scope>", name, " ".join(parts)[:140]))
     return out
+
+
+def namespace_globals(tree: Tree, prefixes: Sequence[str]) -> List[Tuple[str, int, str, str]]:
+    """Mutable variables declared at NAMESPACE scope without `static` / `thread_local` / `const` / `constexpr`
+    (one per process, shared by every thread): (file, line, name, declaration text)."""
+    out = []
+    SKIP_FIRST = {"using", "typedef", "template", "struct", "class", "enum", "union", "namespace", "extern", "friend", "static_assert",
+                  "concept", "static", "thread_local", "public", "private", "protected", "return", "if", "for", "while", "switch", "case",
+                  "default", "do", "else", "try", "catch", "throw", "goto", "break", "continue", "requires", "explicit", "virtual", "operator"}
+    for rel in tree.all_files():
+        if not any(rel.startswith(p) for p in prefixes):
+            continue
+        fi = tree.file(rel)
+        toks = fi.toks
+        stack: List[str] = []  # kinds of the open braces
+        i = 0
+        n = len(toks)
+        stmt_start = True
+        while i < n:
+            tk = toks[i]
+            if tk.kind == "pp":
+                i += 1
+                stmt_start = True
+                continue
+            if tk.kind == "op" and tk.text == "{":
+                # namespace brace?
+                k = i - 1
+                while k >= 0 and (toks[k].kind == "id" or toks[k].text == "::") and toks[k].text != "namespace":
+                    k -= 1
+                kind = "ns" if k >= 0 and toks[k].text == "namespace" else "other"
+                if kind == "other" and i >= 2 and toks[i - 1].kind == "str" and toks[i - 2].text == "extern":
+                    kind = "ns"
+                if kind == "other":
+                    i = fi.match[i] + 1
+                    stmt_start = False
+                    # a '}' of a function/class body followed by ';' or not: next token starts a statement either way
+                    if i < n and toks[i].text == ";":
+                        i += 1
+                    stmt_start = True
+                    continue
+                stack.append(kind)
+                i += 1
+                stmt_start = True
+                continue
+            if tk.kind == "op" and tk.text == "}":
+                if stack:
+                    stack.pop()
+                i += 1
+                stmt_start = True
+                continue
+            if tk.kind == "op" and tk.text == ";":
+                i += 1
+                stmt_start = True
+                continue
+            if not stmt_start:
+                i += 1
+                continue
+            # a statement at namespace scope starts here: collect it up to ';' or a body
+            j = i
+            parts: List[str] = []
+            pre_paren = False
+            seen_eq = False
+            is_decl = tk.kind == "id" or tk.text in ("::", "[")
+            ended = None
+            while j < n:
+                x = toks[j]
+                if x.kind == "op" and x.text in "([":
+                    if x.text == "(" and not seen_eq:
+                        pre_paren = True
+                    parts.append("(..)" if x.text == "(" else "[..]")
+                    j = fi.match[j] + 1
+                    continue
+                if x.kind == "op" and x.text == "{":
+                    nxt = fi.match[j] + 1
+                    if nxt < n and toks[nxt].text == ";" and not pre_paren:
+                        parts.append("{..}")
+                        j = nxt
+                        continue
+                    ended = "body"
+                    break
+                if x.kind == "op" and x.text == "=" and not seen_eq:
+                    seen_eq = True
+                if x.kind == "op" and x.text == ";":
+                    ended = ";"
+                    break
+                parts.append(x.text)
+                j += 1
+            if ended == "body" or ended is None:
+                stmt_start = False
+                i = j  # the '{' handler above skips the body
+                continue
+            i = j + 1
+            stmt_start = True
+            if not is_decl or not parts or parts[0] in SKIP_FIRST or pre_paren:
+                continue
+            words = set(parts)
+            if words & {"constexpr", "consteval", "constinit", "typedef", "using", "static", "thread_local", "extern", "operator", "friend", "template"}:
+                continue
+            head = parts[:parts.index("=")] if "=" in parts else [p for p in parts if p != "{..}"]
+            if "const" in head and "*" not in head:
+                continue
+            ids = [p for p in head if re.fullmatch(r"[A-Za-z_]\w*", p)]
+            if len(ids) < 2:
+                continue  # `name;` alone is an expression/macro, not a declaration
+            out.append((rel, toks[i - 1].line if i - 1 < n else 0, ids[-1], " ".join(parts)[:140]))
+    return out
